@@ -219,6 +219,16 @@ st = gw.remote_status()
 T.append([st.numchannels <= 1, st.execmodel])  # the worker forgets a finished channel just after it told us
 if bare and T[0][0] != "no execnet":
     T.insert(0, "NOT-BARE")
+# the same spec STRING used again in this process: by a group with another remote exec model, and twice
+# by one group -- every worker gets the exec model and the id of ITS gateway
+spec2 = "popen" if path == "import" else "popen//python=%s" % py
+other = "main_thread_only" if model == "thread" else "thread"
+ga = execnet.Group(); ga.set_execmodel("thread", other)
+gb_ = execnet.Group(); gb_.set_execmodel("thread", model)
+ws = [ga.makegateway(spec2), gb_.makegateway(spec2), gb_.makegateway(spec2)]
+q = "channel.send((channel.gateway.id, channel.gateway.execmodel.backend))"
+T.append(["reuse", [list(x.remote_exec(q).receive(30)) for x in ws], [x.id for x in ws]])
+ga.terminate(2); gb_.terminate(2)
 # the kill path: a worker that ignores interrupts must still go away with terminate(timeout)
 import time, signal
 ch = gw.remote_exec("import os, signal, time\nsignal.signal(signal.SIGINT, signal.SIG_IGN) if os.getpid() and __import__('threading').current_thread() is __import__('threading').main_thread() else None\nchannel.send(os.getpid())\nwhile True:\n    try:\n        time.sleep(0.2)\n    except KeyboardInterrupt:\n        pass")
